@@ -379,7 +379,7 @@ fn c07_items(tier: Tier) -> Vec<C07Item> {
         for &chunk in &chunks {
             let mut cfgs: Vec<(Cfg, Schedule)> = Vec::new();
             for kind in [Kind::SI, Kind::SO] {
-                for (l, os, interp) in [(8, 2, Interp::Cubic), (16, 4, Interp::Linear), (64, 16, Interp::Nearest)] {
+                for (l, os, interp) in [(8, 2, Interp::Cubic), (8, 2, Interp::Nearest), (16, 4, Interp::Linear), (16, 3, Interp::Quadratic), (64, 16, Interp::Nearest)] {
                     if q && l == 64 {
                         continue;
                     }
